@@ -8,4 +8,4 @@ NOT_APPLICABLE = {}
 
 # Only properties listed here are claimed in MANIFEST.json (a propdef may exist while its monitor is
 # still being validated).
-REGISTERED = ["C01", "C02", "C03", "C04", "C05", "C06", "C07", "C08", "C09", "C10", "C11", "C12", "C13", "C14", "C15", "C16", "C18", "C19", "C20"]
+REGISTERED = ["C01", "C02", "C03", "C04", "C05", "C06", "C07", "C08", "C09", "C10", "C11", "C12", "C13", "C14", "C15", "C16", "C17", "C18", "C19", "C20"]
